@@ -436,6 +436,37 @@ class S9(Scenario):
             [f"attributes left on the shared Template: {leftovers}"] if leftovers else [])
 
 
+class S10(Scenario):
+    """ONE Component instance renders in both threads - what `Component.as_view()` does for every request (one instance per
+    view function): `self.input` / `self.id` inside get_context_data must be those of the thread's own render"""
+    name = "S10_shared_instance_as_view"
+    bound_quick = 2
+    bound_thorough = 3
+    extra_attrs = ("_metadata_stack", "_metadata_local")
+    extra_funcs = ("_with_metadata",)
+
+    def __init__(self):
+        def gcd(self, who=None, **kw):
+            return {"who": self.input.kwargs["who"], "my": self.id, "n": len(self.input.args)}
+
+        def get(self, request, *args, **kwargs):
+            return self.render_to_response(kwargs={"who": request.GET["who"]})
+
+        self.cls = _mk("s10", "<p>{{ who }}/{{ n }}[{{ my }}]</p>", gcd, extra={"get": get})
+
+    def setup(self):
+        from django.test import RequestFactory
+
+        self.reset_common()
+        view = self.cls.as_view()
+        rf = RequestFactory()
+
+        def mk(who):
+            return lambda: _norm(view(rf.get("/", {"who": who})).content.decode())
+
+        return [mk("Alice"), mk("Bob")]
+
+
 class S5(Scenario):
     """first use of the lazily created caches and of the component-tag subclass registry"""
     name = "S5_lazy_singletons"
@@ -567,7 +598,7 @@ def _norm_doc(html):
 
 
 # the cold-start scenarios come first: their executions are forked from this process, which must not have rendered anything yet
-SCENARIOS = {c.name: c for c in (L1a, L1b, S1, S1c, S2, S3, S3b, S3c, S4, S4b, S5, S6, S7, S8, S9, O1, O2, O3)}
+SCENARIOS = {c.name: c for c in (L1a, L1b, S1, S1c, S2, S3, S3b, S3c, S4, S4b, S5, S6, S7, S8, S9, S10, O1, O2, O3)}
 _SC = {}
 _SET = {}
 
